@@ -78,13 +78,23 @@ def main(run):
                 continue
             if check_matrix(run, "pinhole %s/%s" % (gname, wname), res, q, desc, window=(q - 2.5 * dq, q + 3.0 * dq), sum_tol=1e-12):
                 distinct.add(("pinhole", gname, wname, len(q)))
-                increasing = len(res.q_calc) > 1 and bool(np.all(np.diff(res.q_calc) > 0))   # no reflected negative part
-                edges = bin_edges(res.q_calc) if increasing else None
+                # the weights are built on the signed grid (points beyond the beam stop are negative) and q_calc is
+                # its absolute value: recover the signed grid from the public extension function
+                from sasmodels.resolution import pinhole_extend_q
+                signed = pinhole_extend_q(q, dq)
+                signed = signed[np.abs(signed) >= 0.02 * np.min(q)]
+                if len(signed) == len(res.q_calc) and np.array_equal(np.abs(signed), res.q_calc):
+                    qsig = signed
+                    stats["pinhole_default_signed"] = stats.get("pinhole_default_signed", 0) + int(np.any(signed < 0))
+                else:
+                    qsig = np.asarray(res.q_calc)
+                increasing = len(qsig) > 1 and bool(np.all(np.diff(qsig) > 0)) and not (qsig is not signed and np.any(q - 2.5 * dq < 0))
+                edges = bin_edges(qsig) if increasing else None
                 for i in (rng.sample(range(len(q)), min(3, len(q))) if increasing else []):
                     sig = max(dq[i], 1e-8)
                     cdf = erf((edges - q[i]) / (np.sqrt(2.0) * sig))
                     if len(res.q_calc) <= 260:
-                        cases.append("(MkCase 0%%nat %s %s %s %s 0%%float %s)" % (flist(res.q_calc), flist(cdf), fhex(q[i]), fhex(sig), flist(res.weight_matrix[:, i])))
+                        cases.append("(MkCase 0%%nat %s %s %s %s 0%%float %s)" % (flist(qsig), flist(cdf), fhex(q[i]), fhex(sig), flist(res.weight_matrix[:, i])))
                         metas.append(dict(desc, point=int(i)))
         # signed calculation grids (data next to the beam stop: the window reaches negative q): the public
         # pinhole_resolution on a grid with negative points, as Pinhole1D calls it before taking |q_calc|
